@@ -23,6 +23,8 @@ var c07Exprs = []string{
 	"nested[:2][]", "nested[::2][]", "nested[]", "[nested[0], strs][]", "nested[*][1:]", "reverse(nested[0])", "sort(nested[0])", "join('-', strs)", "join(s, strs)", "to_string(nested)", "merge(o, o)", "zip(nested[0], strs)",
 	"let $l = n in arr[?let $s = `10` in k * $s > $l].g", "let $l = b in a[*].[let $s = `1`, $t = 'x' in [$s, $l, $t]]", c07OrChain(300),
 	"let $v = b in a[*].[$v, d, $v]", "let $v = n in arr[*].[$v + k, $v]", "pad_left(s, wide)", "pad_right(s, wide)", "pad_left(b, wide) | length(@)",
+	"a[?c].d | {n: length(@), items: @}", "arr[*].k | [@, length(@)]", "nested[] | {all: @, n: length(@)}", "let $r = arr[*].g in {r: $r, n: length($r)}", "a[*].d | [@, @]", "arr[?k].g | {x: @} | x",
+	"[floor(deci), ceil(deci)]", "q[0] / q[1]", "[floor(deci), q[0] / q[1]]", "avg(q) / `3`", "[ceil(deci), sum(q) / `7`]", "to_number('0.99999999999999999999999999999999999999') | [floor(@), ceil(@)]",
 	"n + n * n", "sum(nums) / length(nums)", "arr[*].k | sort(@)", "o.* | sort(@)", "max_by(arr, &k).g", "not_null(missing, a, b)", "join(',', strs)", "split(s, ',')", "a == a && o == o", "[a, b][].b",
 }
 
@@ -56,18 +58,19 @@ func c07OrChain(n int) string {
 func c07DocA() any {
 	return spare(core.JSONDoc(`{"a":[{"b":[{"c":1},{"c":2}],"c":true,"d":"x"},{"b":[{"c":3}],"c":false,"d":"y"}],"b":"bee","c":3,"o":{"z":1,"y":2},
 		"arr":[{"k":3,"g":"p"},{"k":1,"g":"q"},{"k":2,"g":"p"}],"n":2,"nums":[1,2,3.5],"strs":["x","y"],"s":"a,b,c","wide":100,"nested":[[1,2,3],[4],[5]],
-		"longs":[123456789012345678,223456789012345678,323456789012345678,1.23456789012345678e30]}`))
+		"longs":[123456789012345678,223456789012345678,323456789012345678,1.23456789012345678e30],
+		"deci":0.99999999999999999999999999999999999999,"q":[2,3]}`))
 }
 
 func c07DocB() any {
-	return spare(core.JSONDoc(`{"a":[{"b":[{"c":9}],"c":true,"d":"z"}],"b":null,"c":[1],"o":{"x":7},"arr":[{"k":"b","g":"r"},{"k":"a","g":"r"}],"n":10,"nums":[4],"strs":["p","q","r"],"s":"solo","wide":190,"nested":[[6],[7,8]],"longs":[987654321098765432,887654321098765432,787654321098765432,9.87654321098765432e30]}`))
+	return spare(core.JSONDoc(`{"a":[{"b":[{"c":9}],"c":true,"d":"z"}],"b":null,"c":[1],"o":{"x":7},"arr":[{"k":"b","g":"r"},{"k":"a","g":"r"}],"n":10,"nums":[4],"strs":["p","q","r"],"s":"solo","wide":190,"nested":[[6],[7,8]],"longs":[987654321098765432,887654321098765432,787654321098765432,9.87654321098765432e30],"deci":1.00000000000000000000000000000000000001,"q":[1,7]}`))
 }
 
 // c07DocBad makes most expressions of the menu fail half-way (a wrong type after the first elements): the prelude of the
 // "after a failure" scenarios.
 func c07DocBad() any {
 	return spare(core.JSONDoc(`{"a":[{"b":[{"c":1},5],"c":true,"d":"x"},7],"b":[1],"c":"x","o":{"z":[1],"y":"s"},"arr":[{"k":3,"g":"p"},{"k":"x","g":2},{"k":null}],"n":"x","nums":[1,2,"x"],"strs":["x","y",0.5],"s":5,
-		"nested":[[1,2,3],4,[5]],"longs":[123456789012345678,"x",true]}`))
+		"nested":[[1,2,3],4,[5]],"longs":[123456789012345678,"x",true],"deci":"x","q":[1,0]}`))
 }
 
 // a scenario: which calls run concurrently
@@ -296,6 +299,13 @@ func c07Execute(r *core.Run, sc c07Scenario, want []core.Obs, prefix []int) (*sc
 	for i := range sc.Calls {
 		if w.obs[i].Key() != want[i].Key() {
 			return x, c07Violation(sc, "outcome-differs-from-solo", x.Choices(), fmt.Sprintf("call %d (%s) returns its solo outcome %s", i, sc.Calls[i], want[i].Short()), w.obs[i].Short())
+		}
+	}
+	// a result handed to one caller must not be written by another call afterwards: the value each call returned is
+	// read again once every call has finished
+	for i := range sc.Calls {
+		if o := w.obs[i]; o.Kind == "ok" && core.Canon(core.Norm(o.Raw)) != core.Canon(o.Val) {
+			return x, c07Violation(sc, "result-changed-after-return", x.Choices(), fmt.Sprintf("the value call %d (%s) returned stays %s", i, sc.Calls[i], o.Short()), "by the end of the execution it reads "+trunc(core.Canon(core.Norm(o.Raw)), 200))
 		}
 	}
 	return x, nil
@@ -602,7 +612,91 @@ func c07RunRace(r *core.Run) {
 		default:
 		}
 	}
+	if r.Mine(len(c07Exprs)) {
+		c07Crowd(r)
+	}
 	fmt.Fprintln(os.Stderr, "race pass done")
+}
+
+// c07Crowd: one process first evaluates several thousand different expressions (whatever the library remembers about
+// texts it has seen is full by then), then eight goroutines evaluate further different expressions at the same time,
+// free-running under the race detector. Every call must return its own answer.
+func c07Crowd(r *core.Run) {
+	fill, each := 4300, 700
+	if r.Thorough() {
+		fill, each = 70000, 4000
+	}
+	r.Bound("crowd_distinct_expressions_before", fill)
+	r.Bound("crowd_distinct_expressions_per_goroutine", each)
+	d := core.JSONDoc(`{"v":7,"w":[1,2,3]}`)
+	text := func(i int) (string, string) {
+		switch i % 3 {
+		case 0:
+			return fmt.Sprintf("[v, `%d`][1]", i), fmt.Sprintf("ok:#%d", i)
+		case 1:
+			return fmt.Sprintf("w[?@ < `%d`] | length(@)", i%5), fmt.Sprintf("ok:#%d", minInt(3, maxInt(0, i%5-1)))
+		}
+		return fmt.Sprintf("{k%d: v}.k%d", i, i), "ok:#7"
+	}
+	sc := c07Scenario{Expr: "crowd", Calls: []string{"S(many distinct expressions) x8"}}
+	r.Begin(map[string]any{"expr": "crowd: many distinct expressions, then eight goroutines with further distinct expressions", "doc": "free-running race pass"})
+	for i := 0; i < fill; i++ {
+		t, want := text(i)
+		var o core.Obs
+		if i%2 == 0 {
+			o = core.Search(t, d)
+		} else if e, co := core.Compile(t); e != nil {
+			o = core.ExprSearch(e, d)
+		} else {
+			o = co
+		}
+		if o.Key() != want {
+			r.Violate(c07Violation(sc, "crowd-outcome-differs", nil, fmt.Sprintf("%s = %s", t, want), fmt.Sprintf("expression number %d of the process: %s", i, o.Short())))
+			return
+		}
+	}
+	var wg sync.WaitGroup
+	bad := make(chan string, 64)
+	for g := 0; g < 8; g++ {
+		wg.Add(1)
+		go func(g int) {
+			defer wg.Done()
+			for k := 0; k < each; k++ {
+				t, want := text(fill + g*each + k)
+				var o core.Obs
+				if (g+k)%2 == 0 {
+					o = core.Search(t, d)
+				} else if e, co := core.Compile(t); e != nil {
+					o = core.ExprSearch(e, d)
+				} else {
+					o = co
+				}
+				if o.Key() != want {
+					select {
+					case bad <- fmt.Sprintf("%s returned %s, expected %s", t, o.Short(), want):
+					default:
+					}
+					return
+				}
+			}
+		}(g)
+	}
+	wg.Wait()
+	r.Add("evaluations", int64(fill+8*each))
+	r.Add("transitions", int64(8*each))
+	r.Add("states", 1)
+	select {
+	case msg := <-bad:
+		r.Violate(c07Violation(sc, "crowd-outcome-differs", nil, "every concurrent call returns its own answer", msg))
+	default:
+	}
+}
+
+func minInt(a, b int) int {
+	if a < b {
+		return a
+	}
+	return b
 }
 
 func c07Judge(r *core.Run, phase string, pt map[string]any) *core.Violation {
